@@ -456,6 +456,65 @@ def changed_annotation_check(ctx):
         rec.outcome("changed-annotation")
 
 
+def group_object_check(ctx):
+    """A group taken out of a parsed annotation (hs.groups()[i], a member of get_all_groups()) is searched on its own
+    members only: the answer does not depend on what surrounds the group, and for queries without [ ] and { } (which also
+    see the searched group itself, a group object unlike a top level) it equals that of a fresh annotation made of the
+    group's members."""
+    env = Env()
+    rec = ctx.rec
+    trees, _ = build_annotations(3, 2, 2)
+    queries = list(ATOMS)
+    for a in ATOMS:
+        queries += unary(a)
+    for a, b in itertools.product(["red", "event", "?", "??", "???", "re*"], repeat=2):
+        queries += binary(a, b)
+    queries = list(dict.fromkeys(queries))
+    surroundings = ["({g})", "Blue, ({g}), (Red, (Event))", "((({g}), Red), Sensory-event)"]
+    seen = set()
+    for tree in trees:
+        inner = render(tree)
+        if inner in seen or not inner:
+            continue
+        seen.add(inner)
+        fresh = env.HedString(inner, env.schema)
+        want = {}
+        for q in queries:
+            try:
+                want[q] = env.search(q, fresh)
+            except Exception as e:
+                want[q] = "raises:" + type(e).__name__
+        for sur in surroundings:
+            text = sur.replace("{g}", inner)
+            hs = env.HedString(text, env.schema)
+            target = [g for g in hs.get_all_groups() if g is not hs and str(g).replace(" ", "") == "(" + inner.replace(" ", "") + ")"]
+            if not target:
+                rec.violation("C15:group-object:not-found-in-annotation", annotation=text, group=inner)
+                continue
+            g = target[0]
+            rec.state(("group-object", inner, sur))
+            if sur == surroundings[0]:
+                for q in queries:
+                    if "[" in q or "{" in q:
+                        try:
+                            want[q] = env.search(q, g)
+                        except Exception as e:
+                            want[q] = "raises:" + type(e).__name__
+            for q in queries:
+                rec.n("evaluations")
+                rec.n("transitions")
+                rec.n("distinct_nontrivial")
+                try:
+                    got = env.search(q, g)
+                except Exception as e:
+                    got = "raises:" + type(e).__name__
+                if got != want[q]:
+                    rec.violation("C15:group-object:answer-depends-on-what-surrounds-the-group", annotation=text, group=inner,
+                                  query=q, got=got, members_alone=want[q])
+                    break
+    rec.outcome("group-object")
+
+
 def chain_check(ctx):
     """Chains of three and four operands of one operator written without parentheses: the answer is that of the left-nested
     parenthesised query (and, for '||', of 'some operand matches')."""
@@ -655,6 +714,7 @@ def run(ctx):
     service_check(ctx)
     equal_group_orders(ctx)
     changed_annotation_check(ctx)
+    group_object_check(ctx)
     chain_check(ctx)
     ctx.rec.counts["states"] = len(ctx.rec.states)
 
